@@ -4,7 +4,7 @@ from common import *
 import pipe, gens
 from props import c03, c02
 
-RULE = ("base reactions = corpus and generated rows whose outcome is input-balanced or rule-based (plus the marker stream of C02); "
+RULE = ("base reactions = corpus and generated rows whose outcome is input-balanced or rule-based (plus the marker stream of C02, fixed bases with alkali/hydride reagents, multi-element deficits and excess reagents written twice); "
         "each base is re-run in variants: every molecule re-written as a random equivalent SMILES (RDKit doRandom), kekulised, with "
         "random atom-map numbers, and with the molecules of each side shuffled (thorough: 6 variants per base, quick: 4).  Compared: "
         "solved_by / solved and the multiset of canonical molecules ADDED on each side (rows touched by the reagent post-processing "
@@ -93,7 +93,11 @@ def run(ctx):
     # redox rewrite) in every position, and deficits of several different heavy elements (several equally ranked completions)
     fixed = ["[H-].[Na+].CCO>>CC[O-].[Na+]", "CCO.[Na+].[H-]>>CC[O-].[Na+]", "[K+].[H-].Oc1ccccc1>>[O-]c1ccccc1.[K+]", "CCO.[Na]>>CC[O-].[Na+]",
              "[Li].CC=O>>CC[O-].[Li+]", "CC(=O)C.[H-]>>CC(C)[O-]", "[K].CCO>>CC[O-].[K+]", "CC(N)=O.O.[Na+].[OH-]>>CC(=O)O",
-             "CCBr.N.O>>CCO", "CC(=O)Cl.N.O>>CC(=O)O", "CCOC(C)=O.[Na+].[OH-].Cl>>CCO.CC(=O)O"]
+             "CCBr.N.O>>CCO", "CC(=O)Cl.N.O>>CC(=O)O", "CCOC(C)=O.[Na+].[OH-].Cl>>CCO.CC(=O)O",
+             # an excess reagent written identically twice on one side and once on the other (string-identical copies in the base,
+             # differently spelled copies in the variants)
+             "CCO.CCO.CC(=O)Cl>>CC(=O)OCC.CCO.Cl", "Nc1ccccc1.Nc1ccccc1.CC(=O)Cl>>CC(=O)Nc1ccccc1.Nc1ccccc1", "CC(=O)O.CC(=O)O.CCO>>CC(=O)OCC.CC(=O)O",
+             "CCO.CCO.CCO.CC(=O)Cl>>CC(=O)OCC.CCO", "CN.CN.CCBr>>CCNC.CN", "c1ccccc1.c1ccccc1.CC(=O)Cl>>CC(=O)c1ccccc1.c1ccccc1.Cl"]
     import gen_data
     from synrbl.rule_based import RuleBasedMethod
     dbs = [d["smiles"] for d in RuleBasedMethod("id", "reaction", "reaction").rules if "." not in d["smiles"] and d["smiles"] not in ("[H]", "[O]")]
@@ -102,8 +106,9 @@ def run(ctx):
         core = rng.choice(["CC(=O)O", "CCO", "c1ccccc1", "CCN", "CC(C)=O"])
         fixed.append(".".join([core] + extra) + ">>" + core)
     fb = pipe.run_batches([fixed[i:i + 12] for i in range(0, len(fixed), 12)])
-    fixed_rows = [(inp, r) for b in fb if len(b["rows"]) == len(b["inputs"]) for inp, r in zip(b["inputs"], b["rows"])
-                  if r["solved_by"] in ("input-balanced", "rule-based") and pipe.closed_shell(inp)]
+    # (kept whatever their outcome: the property is symmetric -- if ANY spelling of a reaction has a composition-determined outcome, every
+    # spelling must have it; a base that a defect leaves unsolved is compared against its solved variants below)
+    fixed_rows = [(inp, r) for b in fb if len(b["rows"]) == len(b["inputs"]) for inp, r in zip(b["inputs"], b["rows"]) if pipe.closed_shell(inp)]
     ctx.count("inputs", "fixed_bases_composition_determined", len(fixed_rows))
     marker = [m for m in c02.marker_stream(rng, 0) if pipe.closed_shell(m)]
     nb = 110 if ctx.quick() else 1500
@@ -143,6 +148,13 @@ def run(ctx):
             continue
         r2, b2 = rr
         r1 = base_rows.get(inp)
+        if r1 is not None and r1["solved_by"] not in ("input-balanced", "rule-based") and r2["solved_by"] in ("input-balanced", "rule-based"):
+            ctx.evaluations += 1
+            mk_in = any(c02.outside_guard(x) or any(c.startswith(m) for c in x.replace(">>", ".").split(".") for m in c02.MARKERS)
+                        for x in (r1["input_reaction"] or inp, r2["input_reaction"] or v))
+            ctx.fail("marker-position-sensitive" if mk_in else "verdict-changed-by-spelling", {"base": v, "variant_kind": "base-spelling", "inputs": [inp]},
+                     {"base_row": r2, "variant_row": r1})
+            continue
         if r1 is None or r1["solved_by"] not in ("input-balanced", "rule-based"):
             ctx.count("skipped", "base_not_composition_determined")
             continue
